@@ -5,6 +5,7 @@ FENCE_NOTE = ("Trusts: x86-64 Linux page protection and the fault error code (wr
               "and 20-40 line C models). Accesses inside mapped memory that is no arena slot are not observed.")
 
 ENGINES = [
+    {"name": "uni", "path": "harness/uni.c", "serves_properties": ["C17"], "kind_free_text": "Unicode driver: fold-length monitor and normalisation pipe server; reference in vlib/unicode_ref.py"},
     {"name": "oom", "path": "harness/oom.c", "serves_properties": ["C20"], "kind_free_text": "allocation-failure enumerator (--wrap malloc/calloc/realloc/free) with live-block table"},
     {"name": "mbconv", "path": "harness/mbconv.c", "serves_properties": ["C15", "C01", "C02", "C03", "C04", "C05", "C08"], "kind_free_text": "multibyte/wide conversion driver with libc reference"},
     {"name": "misc", "path": "harness/misc.c", "serves_properties": ["C01", "C02", "C03", "C04", "C05", "C06", "C08", "C12"], "kind_free_text": "time / error-string / environment / line-input / file exports under the fence with libc references"},
@@ -92,6 +93,12 @@ META = {
                   "delimiter positions overwritten, NULL forever after the first NULL, *ptr+*dmaxp never beyond dest+dmax, *dmaxp never grows); unterminated "
                   "inputs must end in an error without any access past dmax (buffer exact-fit between PROT_NONE pages).",
              note=FENCE_NOTE),
+ "C17": dict(technique="runtime monitoring: differential oracle (Python unicodedata over a pipe) for wcsnorm_s; announced-vs-emitted length monitor for the fold functions under fence and ASan",
+             engine="uni",
+             text="The real wcsnorm_s is run on every assigned code point, Hangul, all composing pairs and random reordered mark sequences in NFD and NFC (minimal and ample dmax) and compared "
+                  "with an independent implementation; results are re-normalised; iswfc's announcement is compared with what towfc_s/wcsfc_s emit for every 21-bit value and larger ones, with "
+                  "destinations sized from the announcement flush against unmapped memory.",
+             note="Independent oracle limited to UCD 14 (Python in this image)."),
  "C18": dict(technique="runtime monitoring: out-of-band probe of dead buffers in client programs built per optimisation level / LTO, with a plain-memset positive control",
              engine="erase",
              text="For each compiler configuration (gcc -O0..-O3/-Os, with and without -flto and static linking; clang in thorough) a client erases a buffer that is dead "
